@@ -37,6 +37,36 @@ def lemma_obligations(reg, sidecar_name):
     """Property-level lemmas: proved from axioms + the *contracts* (never bodies) of the functions they use."""
     obs = []
     from .spec import SpecEval
+    import ast as _ast
+    # facts by induction: base and step are obligations; the universally quantified fact then joins the axioms (of later inductions, lemmas, contracts)
+    earlier = set()
+    for ind in reg.inductions:
+        ty.STR_MODE[0] = "string"
+        spec = SpecEval(reg)
+        ex = Executor(reg, registry.Contract("induction:" + ind["name"]))
+        for which in ("base", "step"):
+            st = State()
+            consts = {}
+            for n, t in ind["vars"].items():
+                T = spec.T(t)
+                consts[n] = SV(T, z3.Const(n, ty.sort_of(T)))
+                ex.type_facts(st, consts[n])
+            k = SV(ty.Int, z3.Int(ind["on"]))
+            for ax in reg.axioms:
+                if ax.get("from_induction") and ax["name"] not in earlier:
+                    continue
+                st.assume(ex.axiom_formula(ax))
+            env = Env(st, st, dict(consts, **{ind["on"]: k}))
+            for h in ind["hyps"]:
+                st.assume(spec.boolean(h, env))
+            if which == "base":
+                goal = spec.boolean(ind["body"], Env(st, st, dict(consts, **{ind["on"]: SV(ty.Int, z3.IntVal(0))})))
+            else:
+                st.assume(k.e >= 0)
+                st.assume(spec.boolean(ind["body"], env))
+                goal = spec.boolean(ind["body"], Env(st, st, dict(consts, **{ind["on"]: SV(ty.Int, k.e + 1)})))
+            obs.append(Obligation("induction:%s/%s" % (ind["name"], which), st.facts, goal, "lemma", "induction:" + ind["name"]))
+        earlier.add("ind_" + ind["name"])
     for lm in reg.lemmas:
         ty.STR_MODE[0] = lm.get("strmode", "string") if isinstance(lm, dict) else "string"
         spec = SpecEval(reg)
@@ -48,10 +78,15 @@ def lemma_obligations(reg, sidecar_name):
             consts[n] = SV(T, z3.Const(n, ty.sort_of(T)))
             ex.type_facts(st, consts[n])
         for ax in reg.axioms:
+            if ax.get("from_induction") and ax["name"] not in earlier:
+                continue
             st.assume(ex.axiom_formula(ax))
         env = Env(st, st, consts)
         for h in lm["hyps"]:
             st.assume(spec.boolean(h, env))
+        for hint in lm.get("hints", []):
+            t_ = spec.eval(hint, env)
+            st.facts.append(t_.e == t_.e)
         name = "lemma:%s" % lm["name"]
         for k, use in enumerate(lm["uses"]):
             cname, binding = use
@@ -67,6 +102,7 @@ def lemma_obligations(reg, sidecar_name):
                 st.assume(spec.boolean(e, cenv))
         obs.append(Obligation("%s/goal" % name, st.facts, spec.boolean(lm["goal"], env), "lemma", name))
         obs.append(Obligation("%s/hyps-sat" % name, st.facts, z3.BoolVal(False), "vacuity", name, expect="sat"))
+        earlier.add("lemma_" + lm["name"])
     return obs
 
 
@@ -264,6 +300,8 @@ def run(a):
             if c.external and name in reg.externals_used:
                 trusted.add("external contract %s: %s" % (name, c.note or "stdlib/OS behaviour assumed"))
         for ax in reg.axioms:
+            if ax.get("from_induction"):
+                continue
             trusted.add("axiom %s: %s%s" % (ax["name"], ax["body"], (" -- " + ax["note"]) if ax["note"] else ""))
         for t in reg.assumptions:
             assumptions.add(t)
